@@ -192,7 +192,10 @@ def prefix_rules(ctx, rule, funcs, only_pathlike=True):
     prog = ctx.prog
     n = 0
     for fi in funcs:
-        it = Interp(prog, exc_edges=False)
+        # fork on and/or also where they are computed as VALUES (a helper
+        # returning `a == v or (v.endswith('/') and a.startswith(v))`): the
+        # later operands are then seen under the assumptions that guard them
+        it = Interp(prog, exc_edges=False, fork_boolop=True)
         seen = set()
         for p in it.run(fi):
             for trace, cond, st in _segments(p):
@@ -587,13 +590,37 @@ def rule_text(ctx):
                '%r' % (prm, key, text.get(prm)))
     # arg / arg_path templates
     src = ast.unparse(fi.node)
-    ctx.ob('C12.D6', fi.qualname, 'text-key:arg', "'arg%d' % (idx,)" in src,
-           'string-argument constraints must be written as argN',
-           nontrivial=False)
+
+    def key_template(param):
+        """the format the (index, value) pairs of `param` are written
+        with: from `for idx, v in <param>: add(<fmt> % (idx,), v)` or from a
+        row (<fmt>, <param>) of a table that is looped over"""
+        found = set()
+        for node in prog._iter_scope(fi.node):
+            if isinstance(node, ast.For) and isinstance(node.iter, ast.Name) \
+                    and node.iter.id == param:
+                for n in ast.walk(node):
+                    if isinstance(n, ast.BinOp) and \
+                            isinstance(n.op, ast.Mod) and \
+                            isinstance(n.left, ast.Constant) and \
+                            isinstance(n.left.value, str):
+                        found.add(n.left.value)
+            if isinstance(node, ast.Tuple) and len(node.elts) == 2 and \
+                    isinstance(node.elts[0], ast.Constant) and \
+                    isinstance(node.elts[0].value, str) and \
+                    '%d' in node.elts[0].value and \
+                    isinstance(node.elts[1], ast.Name) and \
+                    node.elts[1].id == param:
+                found.add(node.elts[0].value)
+        return found
+    ctx.ob('C12.D6', fi.qualname, 'text-key:arg',
+           key_template('arg') == {'arg%d'},
+           'string-argument constraints must be written as argN; written '
+           'as %s' % sorted(key_template('arg')), nontrivial=False)
     ctx.ob('C12.D6', fi.qualname, 'text-key:arg_path',
-           "'arg%dpath' % (idx,)" in src,
-           'argument-path constraints must be written as argNpath',
-           nontrivial=False)
+           key_template('arg_path') == {'arg%dpath'},
+           'argument-path constraints must be written as argNpath; written '
+           'as %s' % sorted(key_template('arg_path')), nontrivial=False)
     # local registration passes the same constraints in the router's order
     ok_fi = fi.nested.get('ok')
     target = prog.func(MR + '.addMatch')
